@@ -21,6 +21,7 @@ EXPLANATION = (
     "(R3.5) readers register every descriptor frame unconditionally before decoding later frames. NOT decided: contents of "
     "long interleaved histories (follows from R3.1-R3.5 under the assumption that msgpack calls the default hook depth-first)."
     " Rules added after the sixth blind round: (R3.7) JsonfileReader obtains every object through JsonRecordPacker.unpack, which passes object_hook=self.unpack_obj (records nested in record fields are decoded)."
+    " Rules added after the seventh blind round: (R3.8) GroupedRecord.__init__ appends a member and its descriptor as a pair; R3.3 finds the JSON line writer also when it was folded into write() and the descriptor handler."
 )
 RULE_SUMMARY = "instances: registry sites, guard/register pairs, handler chains, reader branches; non-trivial = dominance / call-chain resolved"
 
